@@ -63,12 +63,20 @@ def run_form_case(case: dict) -> dict:
               "kw_order": list(case.get("order") or [])}
         if "enabled" in case:
             fc["enabled"] = case["enabled"]
+        if case.get("warm") is not None:
+            fc["warmup"] = {"args": case["warm"], "scope": None, "retval": None}
         return I.run_fn_case(fc)
     try:
         K = build_class(case)
     except BaseException as e:  # noqa: BLE001
         c = I.canon_exc(e)
         return {"v": "decerr", "exn": type(e).__name__, "dl": c if c["v"] == "reject" else None, "src": class_source(case)}
+    if case.get("warm") is not None:
+        # an earlier construction of the same class; whatever it did, the measured one below is its own context
+        try:
+            construct(K, case, case["warm"])
+        except BaseException:  # noqa: BLE001, S110
+            pass
     try:
         construct(K, case, case["values"])
         return {"v": "accept"}
